@@ -15,9 +15,29 @@ ASSUME = [
 ]
 
 
+RULE_T = ("threaded compile: one case = one seed = (generated spec with colliding meshes - hulls computed on the asset pool's threads - "
+          "textures and muscles) x (pool width, schedule) on the simulated scheduler; a dry run counts the N allocator calls of "
+          "mj_compile(usethread=1); then for EVERY k <= N (N <= maxexec, else first, last and a seeded sample) the k-th call fails in a fresh run "
+          "under the same schedule: no signal, no mju_error delivered to the user handler on a worker thread, no double/foreign free, no pool "
+          "deadlock, mj_compile returns NULL with a message, and a fault-free compile in the same process gives the baseline bytes")
+
+
 def run(tier):
+    import time
+    import common as C
+    import e1
+    t0 = time.time()
     if tier == "quick":
-        plan = [dict(variant="asan", runs=160, label="asan", timeout=400)]
+        plan = [dict(variant="asan", runs=112, label="asan", timeout=400)]
+        tplan = [dict(variant="sim", runs=192, label="threaded-compile-sim", args=["--maxexec", "40"], timeout=280)]
     else:
         plan = [dict(variant="asan", runs=16000, label="asan", args=["--multi", "60"], timeout=3400)]
-    return nat.run_native("C21", tier, "c21.cc", plan, "fault_enumeration", RULE, ASSUME, nops=0, nmodel=80, use_corpus=False, engine="faultsim")
+        tplan = [dict(variant="sim", runs=32000, label="threaded-compile-sim", args=["--maxexec", "200"], timeout=3400)]
+    rc1 = nat.run_native("C21", tier, "c21.cc", plan, "fault_enumeration", RULE, ASSUME, nops=0, nmodel=80, use_corpus=False, engine="faultsim")
+    ev1 = C.load_evidence("C21")
+    rc2 = e1.run_e1("C21", tier, "c21t.cc", tplan, nops=0, rule=RULE_T, assumptions=ASSUME, design_ref="4/C21")
+    ev2 = C.load_evidence("C21")
+    if ev2:
+        ev2["level"] = "fault_enumeration"
+    C.merge_evidence("C21", [ev1, ev2], RULE + " || " + RULE_T, t0)
+    return 1 if 1 in (rc1, rc2) else 2 if 2 in (rc1, rc2) else 0
